@@ -231,3 +231,13 @@ func (mg *Merged) PossibleObjects(name string) []string {
 	sort.Strings(out)
 	return out
 }
+
+// DirectiveNames returns the names of all directives of the merged view (prelude included), sorted.
+func (mg *Merged) DirectiveNames() []string {
+	out := make([]string, 0, len(mg.Directives))
+	for n := range mg.Directives {
+		out = append(out, n)
+	}
+	sort.Strings(out)
+	return out
+}
